@@ -437,6 +437,11 @@ theorem C05_single_final (u : Bytes → Option Url) (c : Conn) (ops : List Op) (
   have := tally_le u c ops
   simpa [h] using this
 
+/-- Non-vacuity: one request, then two attempts to answer it: one final response is counted, the second attempt is
+    refused. -/
+example : tally (fun t => some ⟨t, none⟩) { input := b!"GET / HTTP/1.1\r\n\r\n" }
+    [.readRequest, .writeResponse (Response.new 200), .writeResponse (Response.new 200)] = (1, 1) := by decide +kernel
+
 /-! ### The automatic `100 Continue` -/
 
 /-- The interim response as it appears on the wire. -/
